@@ -875,6 +875,45 @@ def result_level_decision(work: Work, cases, tag="evalresult"):
     return t2, [(t["id"] - 1, t["final"], diag.get(t["id"], (0, ()))[1]) for t in traces if t["id"] not in acc]
 
 
+def random_fc_dense_tree(rng, operands, rc_keys, fc_keys):
+    """random tree whose operands are requirement constraints with an attached format constraint ([k][9xx]) - every composition is valid and most
+    operands contribute a format constraint, so the collected expression is as large as the source"""
+    if operands == 1:
+        rc = ("leaf", "rc", rng.choice(rc_keys))
+        if rng.random() < 0.85:
+            fc = ("leaf", "fc", rng.choice(fc_keys))
+            return ("then", rc, fc) if rng.random() < 0.7 else ("then", fc, rc)
+        return rc
+    k = rng.randint(1, operands - 1)
+    return (rng.choice(["and", "or", "xor"]), random_fc_dense_tree(rng, k, rc_keys, fc_keys), random_fc_dense_tree(rng, operands - k, rc_keys, fc_keys))
+
+
+def deep_fc_results(res: Result, work: Work, n, max_operands=9):
+    """results of the real evaluation of random expressions with up to max_operands [k][9xx] operands (fully bracketed and with minimal brackets), decided
+    by TLC on the level of results (EvalResultTrace: state = Den, collected format constraints well-formed with the meaning FcRead under every truth assignment)"""
+    import ahb
+    ahb.configure()
+    set_keymap(None)
+    rng = random.Random(seed() * 9341 + 7)
+    rc_keys, fc_keys = [1, 2, 3, 4], [901, 902, 903, 904, 905, 906]
+    cases = []
+    for _ in range(n):
+        t = random_fc_dense_tree(rng, rng.randint(3, max_operands), rc_keys, fc_keys)
+        expr = render(t, rng) if rng.random() < 0.5 else render_minimal(t, rng)
+        asg = {k: rng.choice("FFFFUK") for k in rc_keys}
+        cases.append((expr, asg))
+    t3, bad = result_level_decision(work, cases, tag="deepfc")
+    res.add_tlc(f"EvalResultTrace: results of {len(cases)} random expressions with 3..{max_operands} operands carrying format constraints, decided on Den / FcRead", t3)
+    res.count("traces_validated_against_impl", len(cases))
+    res.count("evaluations", len(cases))
+    for i, final, exp in bad:
+        expr, asg = cases[i]
+        res.violation(f"'{expr}' with {asg}: the evaluation gives {final}; the documented semantics gives {exp} and a collected format-constraint expression with the "
+                      "meaning of the direct reading under every truth assignment", {"kind": "deep-fc", "expr": expr, "asg": asg})
+    for expr, asg in cases:
+        res.distinct(("deepfc", expr, tuple(sorted(asg.items()))), nontrivial=True)
+
+
 def trace_validation(res: Result, work: Work, n_random=600, max_leaves=25):
     import ahb
     rng = random.Random(seed() * 7919 + 17)
